@@ -165,3 +165,29 @@ def store_family():
         assumptions=["pre/post projections are read through the back end's own Load; the file back end runs in a temporary directory",
                      "data races are decided by the Go race detector; linearisability by TLC (StoreTrace.tla, lin mode)"],
     )
+
+
+# ------------------------------------------------------------------ C17
+SPLIT_GEN_CFG = "SPECIFICATION Spec\nCONSTANTS\n  Specific = {\"sp1\",\"sp2\"}\n  Depth = 9\nCHECK_DEADLOCK FALSE\n"
+
+
+def split_materialise(scr):
+    open(os.path.join(scr.spec, "SplitGen_a.cfg"), "w").write(SPLIT_GEN_CFG)
+
+
+class _Flat(dict):
+    pass
+
+
+def split_family():
+    fam = dict(
+        driver="split", trace_module="SplitTrace.tla", trace_consts={"Specific": '{"sp1","sp2"}'},
+        level="model_checking", fixed="fixed/split.ndjson", materialise=split_materialise,
+        nontrivial=lambda prop, l: l["op"]["op"] == "Client",
+        mc=dict(quick=[("MC_Split.tla", "MC_Split.cfg")], thorough=[("MC_Split.tla", "MC_Split.cfg")]),
+        gen=[dict(module="SplitGen.tla", cfg="SplitGen_a.cfg", depth=9, num=dict(quick=60, thorough=1200), tag="a", beh_cfg={})],
+        rule={"*": "TLC draws a registry (any subset of two specific names, __AUTH__, __UNAUTH__, each possibly with native connections) and a sequence of clients (authenticated node with 0-2 extra protocol names incl. the reserved ones, base-TLS client offering arbitrary names, fetch-only client), then closes the base listener; a real SplitListener over a real InterceptingListener is driven accordingly and every delivery is judged by TLC"},
+        assumptions=["a connection not handed out by any sub-listener within 400 ms counts as closed",
+                     "an application whose own base TLS configuration advertises a library-prefixed protocol is outside the quantifier"],
+    )
+    return fam
